@@ -193,6 +193,8 @@ def rule_mask_hide(check, model, rule, rule_src):
                 return 'empty'
             if model.sides.bucket(t) == ('sig', idx):
                 return 'kept'
+            if t[0] == 'SL' and idx in (iPO, iPOK) and model.sides.bucket(t[1]) == ('sig', idx):
+                return 'kept'       # what the positional consumption left of it (its bounds are C03.R3's business)
             b = model.sides.bucket(t)
             if b is not None:
                 return 'bucket%d' % b[1]
@@ -219,7 +221,9 @@ def rule_mask_hide(check, model, rule, rule_src):
                     flagtxt = ', '.join('%s=%s' % (k, v) for k, v in val.items() if v) or 'no hide flag'
                     problems.append((i, 'with %s the %s bucket is %s, expected %s' % (flagtxt, proto.kind_at(i), got[i], exp[i])))
         key = '_signatures:_mask|hide|%s' % fkeytxt
-        if (unk or unknown) and not problems:
+        if unk and not problems:
+            # (a path whose effects conform conforms whatever its un-understood guards mean; only un-understood
+            # *values* leave the verdict open)
             if key not in seen:
                 check.inconclusive(rule, st, 'bucket values not understood on this path (%s)' %
                                    (', '.join('%s=%s' % (proto.kind_at(i), show(pre[i])[:60]) for i in range(5) if got[i] == 'unknown')
@@ -515,6 +519,9 @@ def rule_mask_names(check, model, rules):
                         else:
                             if kwo_puts or kwo_pops or src_pops or src_sets:
                                 add('table', 'row "absorbed by **kwargs": the signature is changed although the name is simply absorbed')
+                            if src_pops:
+                                add('src', 'row "absorbed by **kwargs": a provenance entry is removed although no parameter leaves the '
+                                           'signature: a positional-only parameter (or the star parameter) of that name keeps no entry')
             unk = [m for c, m in msgs if c == 'unknown']
             for cat, rid in rules.items():
                 if rid is None:
@@ -878,6 +885,29 @@ def _consume_by_slices(check, model, rule):
         if ok:
             inner = [x for x in lo[2] if x != K(0)][0]
             ok = inner[0] == 'B' and inner[1] == 'Sub' and inner[2] == num
+        if not ok and pok[3] == NONE and lo[0] == 'B' and lo[1] == 'Sub' and lo[2] == num and lo[3] == want_len:
+            # un-clamped difference: negative whenever fewer arguments are passed than there are positional-only
+            # parameters, unless the path is dominated by a comparison that excludes it
+            guarded = False
+            for atom, pol in p.lits:
+                if atom[0] == 'cmp' and set([atom[2], atom[3]]) == set([num, want_len]):
+                    # normal forms: (a < b), (a <= b); we need  len(PO) <= num
+                    if atom[1] == '<=' and atom[2] == want_len and atom[3] == num and pol:
+                        guarded = True
+                    if atom[1] == '<' and atom[2] == num and atom[3] == want_len and not pol:
+                        guarded = True
+                    if atom[1] == '<' and atom[2] == want_len and atom[3] == num and pol:
+                        guarded = True
+            if guarded:
+                check.holds(rule, st, 'positional-or-keyword parameters are cut at num_args - len(<positional-only>) under a guard that keeps it non-negative', key=key)
+            else:
+                check.violation(rule, st, 'the positional-or-keyword parameters are cut at %s, which is negative when fewer arguments are passed than '
+                                'there are positional-only parameters: a negative slice start counts from the end and removes regular '
+                                'parameters that were not consumed' % show(lo)[:70], key=key,
+                                witness="mask(s('a, b, /, c, d, e'), 1) must be (b, /, c, d, e)")
+            for m_ in msgs:
+                check.violation(rule, st, m_, key=key + '|po', witness="mask(s('a, /, b'), 1) must be (b)")
+            continue
         if not ok or pok[3] != NONE:
             check.inconclusive(rule, st, 'slice-based consumption: start of the positional-or-keyword cut not understood: %s' % show(lo)[:80], key=key)
             continue
